@@ -1,6 +1,7 @@
 """C23 Rotations stay valid.
 
-Bounded histories: a model with a free body, a ball-joint chain hanging from it and a ball joint on the world (geoms,
+Bounded histories: a model with a free body, a ball-joint chain hanging from it, a ball joint on the world, and an isolated free body and a balanced ball joint whose
+angular velocity stays exactly zero when started at rest (geoms,
 sites, cameras, offset inertial frames) is started from every combination of quaternion scale {1, 3, 1e-3} (unnormalised
 on purpose) x angular speed {0, 1, 50, 1000} rad/s about 3 axes x timestep {1e-3, 2e-2} x integrator {Euler, RK4,
 implicit, implicitfast} and stepped K times.  After the initial forward() and after EVERY step: every quaternion slot of
@@ -34,6 +35,8 @@ XML = """<mujoco><option timestep="{dt}" integrator="{integ}" gravity="0 0 -9.81
     <site name="sf" pos="0.1 0 0" quat="0.5 0.5 0.5 -0.5"/><camera name="cf" pos="0 -0.3 0.1" quat="0.8 0.36 -0.48 0"/>
     <body name="b1" pos="0.15 0 0" quat="0.7071068 0.5 -0.5 0"><joint name="b1" type="ball" damping="0.0002"/><geom type="capsule" fromto="0 0 0 0.2 0 0" size="0.02" contype="0" conaffinity="0"/>
       <body name="b2" pos="0.2 0 0"><joint name="b2" type="ball"/><geom type="ellipsoid" size=".05 .03 .02" pos="0.05 0 0" contype="0" conaffinity="0"/><site name="s2" pos="0.1 0 0"/></body></body></body>
+  <body name="iso" pos="-0.6 0 1"><freejoint name="iso"/><geom type="sphere" size="0.05" contype="0" conaffinity="0"/></body>
+  <body name="bal" pos="-0.6 0.5 1"><joint name="bal" type="ball"/><geom type="sphere" size="0.05" contype="0" conaffinity="0"/></body>
   <body name="w" pos="0.6 0 1"><joint name="bw" type="ball"/><geom type="cylinder" size=".03 .1" pos="0 0 -0.1" contype="0" conaffinity="0"/><camera name="cw" mode="targetbody" target="f" pos="0 0 0.2"/></body>
 </worldbody></mujoco>"""
 
